@@ -114,6 +114,21 @@ Section PdrTerminationSys.
              sys_finite (sys_oracle_ok Htr) Hnf); try assumption; [| lia].
     now apply (exec_unsafe sy Hcls trace Hex).
   Qed.
+
+  (** a system whose counterexamples are all longer than MAX_FRAMES steps: Unknown at the frame limit *)
+  Theorem pdr_model_deep_unknown_sys fuel bf :
+    truthful_sys -> no_faults slit (sstate sy) W EM solve cmd_fail bmc_result ->
+    bad_reachable sy -> (forall k, k <= MAX_FRAMES -> ~ bad_reachable_within sy k) ->
+    pdr_fuel_bound nstates < fuel -> pdr_block_fuel_bound nstates < bf ->
+    exists st', run fuel bf = Ok (VUnknown W, st') /\ MAX_FRAMES < length (p_frames slit (sstate sy) EM st').
+  Proof.
+    intros Htr Hnf (k0 & trace & Hex & _ & Hbad) Hdeep. rewrite <- sstates_len. intros Hf Hbf.
+    apply (pdr_model_deep_unknown slit slit_eqb (sstate sy) (scube sy) W EM solve cmd_fail n_init gen_on (has_bads_of sy)
+             bmc_result (slit_holds sy) (st_bad0 sy) (st_step0 sy) (st_trans sy) (st_bad sy) sstates fuel bf
+             sys_finite (sys_oracle_ok Htr) Hnf); try assumption.
+    - exists (pred (length trace)). now apply (exec_unsafe sy Hcls trace Hex).
+    - intros d Hd Hu. apply (Hdeep d Hd). now apply unsafe_exec.
+  Qed.
 End PdrTerminationSys.
 
 (** ** the hypotheses are satisfiable: the exhaustive-search oracle over the listed valuations is truthful
@@ -155,3 +170,34 @@ Section PdrTerminationEnum.
     - discriminate Hb.
   Qed.
 End PdrTerminationEnum.
+
+(** ** a concrete system on which the model answers Unknown: the 11-bit counter c' = c + 1 from 0 with
+    bad = (c == 1500) - 2048 valuations, the only counterexamples have 1500 + 2048 i steps *)
+Open Scope string_scope.
+Definition dc_c : expr := BVSymbol "c" 11.
+Definition deep_counter : sys :=
+  {| s_inputs := [];
+     s_states := [ {| st_sym := dc_c; st_init := Some (BVLiteral 11 0); st_next := Some (BVAdd dc_c (BVLiteral 11 1) 11) |} ];
+     s_outputs := []; s_bads := [BVEqual dc_c (BVLiteral 11 1500)]; s_constraints := [] |}.
+Close Scope string_scope.
+
+Lemma deep_counter_spec : fin_class deep_counter = true /\ reach_spec deep_counter = Unsafe 1500.
+Proof. vm_compute. split; reflexivity. Qed.
+
+Theorem pdr_model_unknown_on_deep_counter (W EM : Type)
+        (solve : nat -> query slit -> answer slit (sstate deep_counter) EM) (cmd_fail : nat -> option EM) (n_init : nat)
+        (gen_on : bool) (bmc_result : bmc_answer W EM) (fuel bf : nat) :
+  (forall n q, truthful slit slit_eqb (sstate deep_counter) EM (slit_holds deep_counter) (st_bad0 deep_counter) (st_step0 deep_counter)
+                        (st_trans deep_counter) (st_bad deep_counter) q (solve n q)) ->
+  no_faults slit (sstate deep_counter) W EM solve cmd_fail bmc_result ->
+  pdr_fuel_bound (nstates deep_counter) < fuel -> pdr_block_fuel_bound (nstates deep_counter) < bf ->
+  exists st', pdr slit slit_eqb (sstate deep_counter) (scube deep_counter) W EM solve cmd_fail n_init gen_on
+                  (has_bads_of deep_counter) bmc_result fuel bf = Ok (VUnknown W, st') /\
+              MAX_FRAMES < length (p_frames slit (sstate deep_counter) EM st').
+Proof.
+  intros Htr Hnf Hf Hbf. destruct deep_counter_spec as [Hcls Hspec].
+  apply (reach_spec_unsafe_iff deep_counter Hcls 1500) in Hspec. destruct Hspec as [Hreach Hmin].
+  apply (pdr_model_deep_unknown_sys deep_counter W EM solve cmd_fail n_init gen_on bmc_result Hcls fuel bf Htr Hnf); try assumption.
+  - now exists 1500.
+  - intros k Hk. apply Hmin. unfold MAX_FRAMES in Hk. lia.
+Qed.
